@@ -1,18 +1,83 @@
-"""parse_iso (orso/tools.py): caught exception classes, length windows, index checks, slice offsets."""
+"""parse_iso (orso/tools.py): the `except` tuple, the epoch types, and — lifted from the AST with
+harness/pyexpr.py — every guard of the text path as a Lean expression (`Gen.Iso.*`):
+
+    10 <= len(value) <= 33            lenWindow len
+    not 10 <= len(value) <= 28        plusReject len
+    value[4] != "-" or value[7] != "-"    dashTestA c / dashTestB c (+ indices, + the joining operator)
+    val_len == 10 / >= 16 / == 16     dateLenTest n / timeLenTest n / minLenTest n
+    value[10] not in ("T", " ") and value[13] != ":"   sepTestA c / sepTestB c (+ indices, + operator)
+    val_len >= 19 and value[16] == ":"                 secLenTest n / secCharTest c (+ index)
+
+plus the slice offsets of the three `datetime(*map(int, [...]))` calls and the `Z` / `+` characters.
+Model/Iso.lean assembles them in a hand-written skeleton (where Python short-circuits and which
+subscript is read when); the theorems are re-checked against the expressions the code contains now.
+"""
 import ast
+import copy
 
 from ..extract import HEADER, Src, lean_list, lean_str
+from ..pyexpr import Untranslatable, to_lean
 
 PIN_SLICES = [
     [[0, 4], [5, 7], [8, 10]],
     [[0, 4], [5, 7], [8, 10], [11, 13], [14, 16], [17, 19]],
     [[0, 4], [5, 7], [8, 10], [11, 13], [14, 16]],
 ]
-OPS = {ast.Eq: "==", ast.NotEq: "!=", ast.Lt: "<", ast.LtE: "<=", ast.Gt: ">", ast.GtE: ">=", ast.In: "in", ast.NotIn: "not in"}
+PIN = {
+    "lenWindow": "((10 ≤ len) ∧ (len ≤ 33))",
+    "plusReject": "(¬ ((10 ≤ len) ∧ (len ≤ 28)))",
+    "dash": [[4, "(c ≠ '-')"], [7, "(c ≠ '-')"], "or"],
+    "lenTests": ["(n = 10)", "(n ≥ 16)", "(n = 16)"],
+    "sep": [[10, "((c ≠ 'T') ∧ (c ≠ ' '))"], [13, "(c ≠ ':')"], "and"],
+    "sec": ["(n ≥ 19)", [16, "(c = ':')"]],
+}
 
 
 def lean_char(c):
     return {"'": "'\\''", "\\": "'\\\\'", "\n": "'\\n'", "\t": "'\\t'"}.get(c, "'%s'" % c)
+
+
+class _Prep(ast.NodeTransformer):
+    """`x not in (a, b)` -> `x != a and x != b`;  `x in (a, b)` -> `x == a or x == b` (same truth value)."""
+
+    def visit_Compare(self, n):
+        self.generic_visit(n)
+        if len(n.ops) == 1 and isinstance(n.ops[0], (ast.NotIn, ast.In)) and isinstance(n.comparators[0], (ast.Tuple, ast.List)):
+            neg = isinstance(n.ops[0], ast.NotIn)
+            parts = [ast.Compare(left=copy.deepcopy(n.left), ops=[ast.NotEq() if neg else ast.Eq()], comparators=[e]) for e in n.comparators[0].elts]
+            if not parts:
+                raise Untranslatable("empty tuple")
+            return parts[0] if len(parts) == 1 else ast.BoolOp(op=ast.And() if neg else ast.Or(), values=parts)
+        return n
+
+
+def tr(node, env):
+    """pyexpr translation with one-character string constants as Lean `Char` literals."""
+    node = ast.fix_missing_locations(_Prep().visit(copy.deepcopy(node)))
+    env = dict(env)
+    for n in ast.walk(node):
+        if isinstance(n, ast.Constant) and isinstance(n.value, str):
+            if len(n.value) != 1:
+                raise Untranslatable("string constant %r" % n.value)
+            env[ast.unparse(n)] = lean_char(n.value)
+    return to_lean(node, env)
+
+
+def subscripts(node):
+    """Constant indices of `value[...]` read in an expression."""
+    out = []
+    for n in ast.walk(node):
+        if isinstance(n, ast.Subscript) and isinstance(n.value, ast.Name) and n.value.id == "value" and not isinstance(n.slice, ast.Slice):
+            out.append(ast.literal_eval(n.slice))
+    return out
+
+
+def char_test(node):
+    """An operand that reads exactly one `value[i]`: returns [i, lean expr over `c`]."""
+    idx = subscripts(node)
+    if len(set(idx)) != 1 or idx[0] < 0:
+        raise KeyError("operand reads %r" % (idx,))
+    return [idx[0], tr(node, {"value[%d]" % idx[0]: "c"})]
 
 
 def generate(o):
@@ -20,6 +85,11 @@ def generate(o):
 
     def fn():
         return src.func("parse_iso")
+
+    def tests():
+        out = [n for n in ast.walk(fn()) if isinstance(n, ast.If)]
+        out.sort(key=lambda n: (n.lineno, n.col_offset))
+        return [n.test for n in out]
 
     def caught():
         tries = [n for n in ast.walk(fn()) if isinstance(n, ast.Try)]
@@ -31,46 +101,67 @@ def generate(o):
         elts = t.elts if isinstance(t, ast.Tuple) else [t]
         return [ast.unparse(e) for e in elts]
 
-    def windows():
-        out = []
-        for n in ast.walk(fn()):
-            if isinstance(n, ast.Compare) and len(n.ops) == 2 and all(isinstance(op, ast.LtE) for op in n.ops):
-                mid = n.comparators[0]
-                if isinstance(mid, ast.Call) and getattr(mid.func, "id", None) == "len":
-                    out.append((n.lineno, n.col_offset, [ast.literal_eval(n.left), ast.literal_eval(n.comparators[1])]))
-        out.sort()
-        if len(out) != 2:
-            raise KeyError("length windows")
-        return [w[2] for w in out]
+    def len_window():
+        c = [t for t in tests() if "len(value)" in ast.unparse(t) and not isinstance(t, ast.UnaryOp)]
+        if len(c) != 1 or not (isinstance(c[0], ast.BoolOp) and isinstance(c[0].op, ast.And) and len(c[0].values) == 2
+                               and ast.unparse(c[0].values[0]) == "input_type == str"):
+            raise KeyError("`input_type == str and <window>`")
+        return tr(c[0].values[1], {"len(value)": "len"})
 
-    def index_checks():
-        """value[<const>] <op> <const>, in source order."""
-        out = []
-        for n in ast.walk(fn()):
-            if isinstance(n, ast.Compare) and len(n.ops) == 1 and isinstance(n.left, ast.Subscript):
-                s = n.left
-                if isinstance(s.value, ast.Name) and s.value.id == "value" and not isinstance(s.slice, ast.Slice):
-                    idx = ast.literal_eval(s.slice)
-                    rhs = ast.literal_eval(n.comparators[0])
-                    out.append((n.lineno, n.col_offset, [idx, OPS[type(n.ops[0])], list(rhs) if isinstance(rhs, tuple) else [rhs]]))
-        out.sort()
-        return [x[2] for x in out]
+    def plus_reject():
+        c = [t for t in tests() if "len(value)" in ast.unparse(t) and isinstance(t, ast.UnaryOp)]
+        if len(c) != 1:
+            raise KeyError("`not <window>` after the split")
+        return tr(c[0], {"len(value)": "len"})
 
-    def sep_join():
-        for n in ast.walk(fn()):
-            if isinstance(n, ast.BoolOp) and len(n.values) == 2:
-                a, b = n.values
-                if (isinstance(a, ast.Compare) and isinstance(a.ops[0], (ast.NotIn, ast.In)) and isinstance(a.left, ast.Subscript)):
-                    return "and" if isinstance(n.op, ast.And) else "or"
-        raise KeyError("separator test")
+    def two_operand(pred):
+        c = [t for t in tests() if isinstance(t, ast.BoolOp) and len(t.values) == 2 and pred(t)]
+        if len(c) != 1:
+            raise KeyError("two-operand test")
+        return c[0]
+
+    def dash():
+        t = two_operand(lambda t: len(subscripts(t)) == 2 and all(len(subscripts(v)) == 1 for v in t.values)
+                        and not any(isinstance(op, (ast.In, ast.NotIn)) for n in ast.walk(t) if isinstance(n, ast.Compare) for op in n.ops))
+        return [char_test(t.values[0]), char_test(t.values[1]), "and" if isinstance(t.op, ast.And) else "or"]
+
+    def sep():
+        t = two_operand(lambda t: len(subscripts(t)) == 2 and all(len(subscripts(v)) == 1 for v in t.values)
+                        and any(isinstance(op, (ast.In, ast.NotIn)) for n in ast.walk(t) if isinstance(n, ast.Compare) for op in n.ops))
+        return [char_test(t.values[0]), char_test(t.values[1]), "and" if isinstance(t.op, ast.And) else "or"]
+
+    def sec():
+        t = two_operand(lambda t: "val_len" in ast.unparse(t.values[0]) and len(subscripts(t.values[0])) == 0 and len(subscripts(t.values[1])) == 1)
+        if not isinstance(t.op, ast.And):
+            raise KeyError("seconds test is not an `and`")
+        return [tr(t.values[0], {"val_len": "n"}), char_test(t.values[1])]
 
     def len_tests():
-        out = []
-        for n in ast.walk(fn()):
-            if isinstance(n, ast.Compare) and len(n.ops) == 1 and isinstance(n.left, ast.Name) and n.left.id == "val_len":
-                out.append((n.lineno, n.col_offset, [OPS[type(n.ops[0])], ast.literal_eval(n.comparators[0])]))
-        out.sort()
-        return [x[2] for x in out]
+        c = [t for t in tests() if isinstance(t, ast.Compare) and isinstance(t.left, ast.Name) and t.left.id == "val_len"]
+        if len(c) != 3:
+            raise KeyError("three val_len tests")
+        return [tr(t, {"val_len": "n"}) for t in c]
+
+    def z_char():
+        c = [t for t in tests() if isinstance(t, ast.Compare) and subscripts(t) == [-1] and isinstance(t.ops[0], ast.Eq)]
+        if len(c) != 1:
+            raise KeyError("value[-1] == 'Z'")
+        v = ast.literal_eval(c[0].comparators[0])
+        if not (isinstance(v, str) and len(v) == 1):
+            raise KeyError("Z constant")
+        return v
+
+    def plus_char():
+        ins = [n for n in ast.walk(fn()) if isinstance(n, ast.Compare) and isinstance(n.ops[0], ast.In)
+               and isinstance(n.left, ast.Constant) and isinstance(n.left.value, str)]
+        sp = [n for n in ast.walk(fn()) if isinstance(n, ast.Call) and isinstance(n.func, ast.Attribute) and n.func.attr == "split"]
+        if len(ins) != 1 or len(sp) != 1 or ast.literal_eval(sp[0].args[0]) != ins[0].left.value or len(ins[0].left.value) != 1:
+            raise KeyError("'+' test / split")
+        # value.split("+")[0]
+        par = [n for n in ast.walk(fn()) if isinstance(n, ast.Subscript) and n.value is sp[0]]
+        if len(par) != 1 or ast.literal_eval(par[0].slice) != 0:
+            raise KeyError("split(...)[0]")
+        return ins[0].left.value
 
     def slices():
         calls = []
@@ -79,9 +170,8 @@ def generate(o):
                 m = n.args[0].value
                 if not (isinstance(m, ast.Call) and getattr(m.func, "id", None) == "map" and ast.unparse(m.args[0]) == "int"):
                     raise KeyError("map(int, ...)")
-                lst = m.args[1]
                 sl = []
-                for e in lst.elts:
+                for e in m.args[1].elts:
                     if not (isinstance(e, ast.Subscript) and isinstance(e.slice, ast.Slice) and e.slice.step is None):
                         raise KeyError("slice shape")
                     lo = 0 if e.slice.lower is None else ast.literal_eval(e.slice.lower)
@@ -101,55 +191,49 @@ def generate(o):
                 return [ast.unparse(e) for e in n.comparators[0].elts]
         raise KeyError("epoch type tuple")
 
-    def plus_char():
-        ins = [n for n in ast.walk(fn()) if isinstance(n, ast.Compare) and isinstance(n.ops[0], ast.In)
-               and isinstance(n.left, ast.Constant) and isinstance(n.left.value, str)]
-        sp = [n for n in ast.walk(fn()) if isinstance(n, ast.Call) and isinstance(n.func, ast.Attribute) and n.func.attr == "split"]
-        if len(ins) != 1 or len(sp) != 1 or ast.literal_eval(sp[0].args[0]) != ins[0].left.value or len(ins[0].left.value) != 1:
-            raise KeyError("'+' test / split")
-        return ins[0].left.value
-
-    pc = o.item("iso.plus_char", plus_char, "+")
     c = o.item("iso.caught", caught, ["ValueError", "TypeError", "OverflowError", "OSError"])
-    w = o.item("iso.windows", windows, [[10, 33], [10, 28]])
-    ic = o.item("iso.index_checks", index_checks,
-                [[-1, "==", ["Z"]], [4, "!=", ["-"]], [7, "!=", ["-"]], [10, "not in", ["T", " "]], [13, "!=", [":"]], [16, "==", [":"]]])
-    sj = o.item("iso.sep_join", sep_join, "and")
-    lt = o.item("iso.len_tests", len_tests, [["==", 10], [">=", 16], [">=", 19], ["==", 16]])
-    sl = o.item("iso.slices", slices, PIN_SLICES)
     et = o.item("iso.epoch_types", epoch_types, ["int", "numpy.int64", "float", "numpy.float64"])
-
-    def shape_ok():
-        ops = [x[1] for x in ic]
-        if [x[0] for x in ic][0] != -1 or ops != ["==", "!=", "!=", "not in", "!=", "=="] or any(len(x[2]) != 1 for i, x in enumerate(ic) if i != 3):
-            raise KeyError("index checks have another shape: %r" % (ic,))
-        if [x[0] for x in lt] != ["==", ">=", ">=", "=="]:
-            raise KeyError("val_len tests have another shape: %r" % (lt,))
-        return True
-
-    ok = o.item("iso.shape", shape_ok, False)
-    if not ok:
-        ic = [[-1, "==", ["Z"]], [4, "!=", ["-"]], [7, "!=", ["-"]], [10, "not in", ["T", " "]], [13, "!=", [":"]], [16, "==", [":"]]]
-        lt = [["==", 10], [">=", 16], [">=", 19], ["==", 16]]
+    zc = o.item("iso.z_char", z_char, "Z")
+    pc = o.item("iso.plus_char", plus_char, "+")
+    lw = o.item("iso.expr.len_window", len_window, PIN["lenWindow"])
+    pr = o.item("iso.expr.plus_reject", plus_reject, PIN["plusReject"])
+    da = o.item("iso.expr.dash", dash, PIN["dash"])
+    lt = o.item("iso.expr.len_tests", len_tests, PIN["lenTests"])
+    se = o.item("iso.expr.sep", sep, PIN["sep"])
+    sc = o.item("iso.expr.sec", sec, PIN["sec"])
+    sl = o.item("iso.slices", slices, PIN_SLICES)
 
     pair = lambda p: "(%d, %d)" % (p[0], p[1])
+
+    def prop(name, args, body, doc):
+        t = "/-- %s -/\n" % doc
+        t += "def %s %s : Prop := %s\n" % (name, args, body)
+        t += "instance %s : Decidable (%s %s) := by unfold %s; infer_instance\n" % (args, name, args.strip("()").split(":")[0].strip(), name)
+        return t
+
     t = HEADER + "namespace Gen.Iso\n"
     t += "/-- classes named in `except (...)` of parse_iso -/\n"
     t += "def caught : List String := %s\n" % lean_list(c, lean_str)
     t += "/-- types sent to the epoch branch -/\n"
     t += "def epochTypes : List String := %s\n" % lean_list(et, lean_str)
-    t += "def lenLo : Nat := %d\ndef lenHi : Nat := %d\n" % tuple(w[0])
-    t += "def plusLo : Nat := %d\ndef plusHi : Nat := %d\n" % tuple(w[1])
-    t += "def zChar : Char := %s\n" % lean_char(ic[0][2][0])
+    t += "def zChar : Char := %s\n" % lean_char(zc)
     t += "def plusChar : Char := %s\n" % lean_char(pc)
-    t += "def dashA : Nat := %d\ndef dashAChar : Char := %s\n" % (ic[1][0], lean_char(ic[1][2][0]))
-    t += "def dashB : Nat := %d\ndef dashBChar : Char := %s\n" % (ic[2][0], lean_char(ic[2][2][0]))
-    t += "def sepIdx : Nat := %d\ndef sepChars : List Char := %s\n" % (ic[3][0], lean_list(ic[3][2], lean_char))
-    t += "def colonA : Nat := %d\ndef colonAChar : Char := %s\n" % (ic[4][0], lean_char(ic[4][2][0]))
-    t += "def colonB : Nat := %d\ndef colonBChar : Char := %s\n" % (ic[5][0], lean_char(ic[5][2][0]))
-    t += "/-- `value[10] not in (..) <sepJoin> value[13] != ':'` -/\n"
-    t += "def sepJoinAnd : Bool := %s\n" % ("true" if sj == "and" else "false")
-    t += "def lenDate : Nat := %d\ndef lenTimeGe : Nat := %d\ndef lenSecGe : Nat := %d\ndef lenMinEq : Nat := %d\n" % (lt[0][1], lt[1][1], lt[2][1], lt[3][1])
+    t += prop("lenWindow", "(len : Int)", lw, "`%s` (the length window of the text path)" % "10 <= len(value) <= 33")
+    t += prop("plusReject", "(len : Int)", pr, "the test after `value.split(\"+\")[0]` under which the parser gives up")
+    t += "def dashA : Nat := %d\ndef dashB : Nat := %d\n" % (da[0][0], da[1][0])
+    t += prop("dashTestA", "(c : Char)", da[0][1], "first operand of the dash test, `c = value[dashA]`")
+    t += prop("dashTestB", "(c : Char)", da[1][1], "second operand of the dash test, `c = value[dashB]`")
+    t += "/-- the two dash operands are joined by `and` (else `or`) -/\ndef dashJoinAnd : Bool := %s\n" % ("true" if da[2] == "and" else "false")
+    t += prop("dateLenTest", "(n : Int)", lt[0], "`val_len` test of the date-only form")
+    t += prop("timeLenTest", "(n : Int)", lt[1], "`val_len` test under which a time part is looked for")
+    t += prop("minLenTest", "(n : Int)", lt[2], "`val_len` test of the minute form")
+    t += "def sepIdx : Nat := %d\ndef colonA : Nat := %d\n" % (se[0][0], se[1][0])
+    t += prop("sepTestA", "(c : Char)", se[0][1], "first operand of the separator test, `c = value[sepIdx]`")
+    t += prop("sepTestB", "(c : Char)", se[1][1], "second operand of the separator test, `c = value[colonA]`")
+    t += "/-- the two separator operands are joined by `and` (else `or`) -/\ndef sepJoinAnd : Bool := %s\n" % ("true" if se[2] == "and" else "false")
+    t += prop("secLenTest", "(n : Int)", sc[0], "first operand of the seconds test")
+    t += "def colonB : Nat := %d\n" % sc[1][0]
+    t += prop("secCharTest", "(c : Char)", sc[1][1], "second operand of the seconds test, `c = value[colonB]`")
     t += "def slicesDate : List (Nat × Nat) := %s\n" % lean_list(sl[0], pair)
     t += "def slicesSec : List (Nat × Nat) := %s\n" % lean_list(sl[1], pair)
     t += "def slicesMin : List (Nat × Nat) := %s\n" % lean_list(sl[2], pair)
